@@ -83,6 +83,45 @@ fn main() {
             }
             println!("d3 v1 seal: {short}/{n} blobs not 592 bytes; of those {unseal_fail} fail to unseal");
         }
+        "d4" => {
+            // A spec-conforming k3.local-pw blob whose 16-byte CTR nonce ends in ff*8: the second AES block needs a carry
+            // out of the low 64 counter bits. Built here from primitives (PBKDF2-HMAC-SHA384, SHA-384, HMAC-SHA384,
+            // AES-256-CTR with the full 128-bit counter), then unwrapped by both v3 backends.
+            use cipher::{KeyIvInit, StreamCipher};
+            use digest::Digest;
+            use hmac::Mac;
+            let pass = b"correct horse";
+            let key = [0x42u8; 32];
+            let salt = [7u8; 32];
+            let iters: u32 = 1000;
+            let mut nonce = [0u8; 16];
+            for b in &mut nonce[8..] { *b = 0xff; }
+            let k = pbkdf2::pbkdf2_array::<hmac::Hmac<sha2::Sha384>, 32>(pass, &salt, iters).unwrap();
+            let mut h = sha2::Sha384::new(); h.update([0xFFu8]); h.update(k); let ek = h.finalize();
+            let mut h = sha2::Sha384::new(); h.update([0xFEu8]); h.update(k); let ak = h.finalize();
+            let mut edk = key;
+            ctr::Ctr128BE::<aes::Aes256>::new((&ek[..32]).into(), (&nonce).into()).apply_keystream(&mut edk);
+            let mut blob = Vec::new();
+            blob.extend_from_slice(&salt);
+            blob.extend_from_slice(&iters.to_be_bytes());
+            blob.extend_from_slice(&nonce);
+            blob.extend_from_slice(&edk);
+            let mut mac = hmac::Hmac::<sha2::Sha384>::new_from_slice(&ak).unwrap();
+            mac.update(b"k3.local-pw.");
+            mac.update(&blob);
+            blob.extend_from_slice(&mac.finalize().into_bytes());
+            // serialise via the library's own text form
+            let raw = paseto_v3::KeyText::<paseto_core::version::Local>::from_raw_bytes(&blob).to_string();
+            let txt = raw.replace("k3.local.", "k3.local-pw.");
+            let a: paseto_core::paserk::PasswordWrappedKey<paseto_v3_aws_lc::core::V3, paseto_core::version::Local> = txt.parse().unwrap();
+            let b: paseto_core::paserk::PasswordWrappedKey<paseto_v3::core::V3, paseto_core::version::Local> = txt.parse().unwrap();
+            let ka = a.unwrap(pass).map(|k| k.expose_key().as_raw_bytes().to_vec());
+            let kb = b.unwrap(pass).map(|k| k.expose_key().as_raw_bytes().to_vec());
+            println!("d4 original key      : {:02x?}", &key[..]);
+            println!("d4 aws-lc unwraps to : {:02x?}", ka.as_ref().map_err(|e| e.to_string()));
+            println!("d4 paseto-v3 unwraps : {:02x?}", kb.as_ref().map_err(|e| e.to_string()));
+            println!("d4 same key: aws-lc={} rustcrypto={}", ka.as_deref().ok() == Some(&key[..]), kb.as_deref().ok() == Some(&key[..]));
+        }
         _ => {}
     }
 }
